@@ -8,7 +8,7 @@
    most `depth_bound` = 40 steps. *)
 From Coq Require Import List Bool Arith.
 Import ListNotations.
-From Mos Require Import model.Life Gen.LifeSites proofs.LifeProofs proofs.LifeProofs2.
+From Mos Require Import model.Life Gen.LifeSites proofs.LifeProofs proofs.LifeProofs2 proofs.LifeProofs3.
 
 (* From every state the process can be in while the script is delivered, EVERY continuation (any scheduling of main
    thread, stdio writer, debug-server thread and the environment) is finite and ends with the process gone with the
@@ -26,6 +26,27 @@ Theorem C20_exit_clean_with_reconnect : forall s0, In s0 reconnect_initial ->
   forall s, reachable life_variant s0 s -> inev life_variant clean_exit reconnect_depth s.
 Proof. exact exit_clean_reconnect. Qed.
 Print Assumptions C20_exit_clean_with_reconnect.
+
+(* the seventh session state: a debugger's `launch` is in flight -- the session thread waits for the LSP context lock, which
+   the main thread holds while it re-analyses a big edit (and later for the whole of the shutdown handshake) -- when the
+   editor's script starts; 63 further initial states.  Holds because the shutdown-handler channel is buffered. *)
+Theorem C20_exit_clean_launch_in_flight : forall s0, In s0 launch_initial ->
+  forall s, reachable life_variant s0 s -> inev life_variant clean_exit depth_bound s.
+Proof. exact exit_clean_launch. Qed.
+Print Assumptions C20_exit_clean_launch_in_flight.
+
+(* with a rendezvous channel (crossbeam_channel::bounded(0)) invoke_shutdown_handlers blocks until the session receives,
+   while its caller holds the context lock the session is waiting for: each of the property's four orders then has a run
+   that ends with nothing able to move and the process still there; in every other session state the rendezvous shape
+   is harmless, which is why only the in-flight state exposes it *)
+Theorem C20_rendezvous_handler_refuted : forall sc, In sc property_scripts ->
+  exists s', reachable v_rendezvous (initial_launch sc) s' /\ step v_rendezvous s' = [] /\ exited s' = false.
+Proof. exact rendezvous_launch_deadlocks. Qed.
+Print Assumptions C20_rendezvous_handler_refuted.
+
+Theorem C20_rendezvous_clean_elsewhere : forall s0, In s0 all_initial -> inev v_rendezvous clean_exit depth_bound s0.
+Proof. exact rendezvous_clean_elsewhere. Qed.
+Print Assumptions C20_rendezvous_clean_elsewhere.
 
 (* spelled out: no deadlock (a state without successor is a clean exit) and no path longer than the bound *)
 Theorem C20_no_hang_no_wrong_status : forall s0, In s0 all_initial -> forall s, reachable life_variant s0 s ->
@@ -74,7 +95,7 @@ Proof. exact first_repair_dead_thread_panics. Qed.
 Print Assumptions C20_dead_thread_refuted.
 
 Theorem C20_poison_needs_recovery : forall script, In script all_scripts -> spec_exit_code script = 0 ->
-  inev (mkVariant false true true true false true false) (exits_with 101) depth_bound (initial_dead true script).
+  inev (mkVariant false true true true false true false false) (exits_with 101) depth_bound (initial_dead true script).
 Proof. exact poison_needs_recovery. Qed.
 Print Assumptions C20_poison_needs_recovery.
 
